@@ -384,8 +384,8 @@ def directed_istream(bufsz, drv):
     add(za + zb, ws=",".join(["1"] * 40))
     add(za + b"\xa7\x00\x00" + zb)          # an empty member in between
     add(za + zb + b"\x00", kind="garbage")
-    # the recorded finding F24 (findings.json): a want = 0 request after the buffer has been consumed entirely
-    add(za + zb, o="%d:%d,0:0,512:512,512:512" % (bufsz, bufsz), kind="want0")
+    # F24 (repaired): a want = 0 request after the buffer has been consumed entirely must refill, not answer EOF
+    add(za + zb, o="%d:%d,0:0,0:512,512:512,512:512" % (bufsz, bufsz), kind="want0")
     return out
 
 
